@@ -33,7 +33,7 @@ ASSUMPTIONS = [
 REQUIRED_COUNTERS = ["classes", "accepted_models", "instances_checked", "attributes_checked", "shape.List",
                      "shape.Union", "shape.Maybe", "shape.class", "shape.Any", "shape.scalar",
                      "notpassed.under_maybe", "always_present.checked", "line_crosscheck", "nested_instances",
-                     "source.parsed", "source.dsl", "int_under_float"]
+                     "source.parsed", "source.dsl", "int_under_float", "pattern_overlaps_declared", "root_is_subclass"]
 
 ANCHORS = [
     "statham.schema.elements.base:Element.annotation",
@@ -258,11 +258,16 @@ def add_valid_defaults(rng, schema, depth=0):
         return
     props = schema.get("properties")
     if isinstance(props, dict):
-        for sub in props.values():
+        for name, sub in props.items():
             if isinstance(sub, dict) and "$ref" not in sub and rng.random() < 0.25:
-                cand = gv.satisfy(rng, sub, sub)
+                # valid for everything Draft 6 applies to this member: the property schema and every
+                # pattern its name matches
+                applicable = {"allOf": [sub] + [pat_schema for pattern, pat_schema in
+                                                (schema.get("patternProperties") or {}).items()
+                                                if re.search(pattern, name)]}
+                cand = gv.satisfy(rng, applicable, applicable)
                 try:
-                    if refmodel.valid(sub, cand, sub, refmodel.Dev(waiver=True, curated=gv.CURATED)):
+                    if refmodel.valid(applicable, cand, applicable, refmodel.Dev(waiver=True, curated=gv.CURATED)):
                         sub["default"] = cand
                 except Exception:  # pylint: disable=broad-except
                     pass
@@ -308,6 +313,15 @@ def run_shard(ctx):
                 schema["required"] = rng.sample(names, k=rng.randint(1, len(names)))
             if rng.random() < 0.3:
                 schema["additionalProperties"] = rng.choice([False, gs.leaf(rng)])
+            if rng.random() < 0.4:
+                # a pattern that also matches a declared property, with a schema that would BUILD the value
+                # differently (number for integer, untyped for a class): validation applies both, the
+                # annotation comes from the declared property
+                first = names[0][0]
+                pattern = "^" + first if first.isalnum() else "."
+                schema["patternProperties"] = {pattern: rng.choice([{"type": "number"}, {}, {"minimum": -10 ** 9},
+                                                                    {"type": ["number", "object", "array", "string", "null", "boolean"]}])}
+                ctx.count("pattern_overlaps_declared")
             add_valid_defaults(rng, schema)
             try:
                 if not refmodel.metaschema_valid(schema):
@@ -320,8 +334,13 @@ def run_shard(ctx):
             case = {"schema": schema}
             model_schema = schema
         else:
-            gen = gen_dsl.Gen(rng, max_depth=2, defaults=0.0, share=0.1, renames=0.5, inheritance=0.3)
-            spec = gen.klass(2)
+            gen = gen_dsl.Gen(rng, max_depth=2, defaults=0.0, share=0.1, renames=0.5, inheritance=0.3,
+                              pattern_overlap=0.4 if idx % 2 else 0.0)
+            if idx % 4 == 2:
+                spec = gen.family(2, levels=rng.choice([2, 3]))
+                ctx.count("root_is_subclass")
+            else:
+                spec = gen.klass(2)
             spec["kw"].pop("default", None)
             for sub in gen_dsl.class_specs(spec):
                 sub["kw"].pop("default", None)
@@ -337,6 +356,12 @@ def run_shard(ctx):
             continue
         ctx.count("classes")
         classes = list({id(c): c for c in sut.get_object_classes(root)}.values())
+        # base classes are used before the classes derived from them
+        for cls in classes + [root]:
+            for base in reversed(cls.__mro__[1:]):
+                if isinstance(base, sut.ObjectMeta) and base is not sut.Object:
+                    sut.call(base, {})
+                    sut.call(base, {"zz": 1})
         names_ns = annotation_namespace(sut, classes)
         lines = generated_annotations(sut, classes)
         rich = any(shape_of(_safe_ann(p)) not in ("scalar", "Any") or True
